@@ -36,3 +36,5 @@ func VerifStreamTrace(pieces [][]byte, fail bool, ops []byte) []string {
 func VerifKeyMatch(t reflect.Type, text []byte, chunk int) string {
 	return decoder.VerifKeyMatch(t, text, chunk)
 }
+
+func VerifFoldTable() [256]byte { return decoder.VerifFoldTable() }
